@@ -271,7 +271,8 @@ func (b *Batch) Build() error {
 // GenOps asks the batch binary for op lines.
 func (b *Batch) GenOps(seed uint64, scale int) ([]byte, error) {
 	inj, _ := json.Marshal(b.Meta.Injected)
-	return b.runBin(nil, "genops", fmt.Sprint(seed), fmt.Sprint(scale), string(inj))
+	groups, _ := json.Marshal(b.Meta.OneofGroups)
+	return b.runBin(nil, "genops", fmt.Sprint(seed), fmt.Sprint(scale), string(inj), string(groups))
 }
 
 // Exec runs op lines through the batch binary.
